@@ -132,9 +132,16 @@ def decScopeD (s : String) : ScopeD :=
 def encRegs (l : List (Nat × Nat)) : String :=
   if l.isEmpty then "-" else ",".intercalate (l.map (fun p => toString p.1 ++ ">" ++ toString p.2))
 
+/-- a tree node: `<depth>+<0|1>+<scope>` -/
+def decNsNode (s : String) : NsNode :=
+  match s.splitOn "+" with
+  | [d, w, sc] => ⟨d.toNat!, w == "1", decScopeD sc⟩
+  | _ => ⟨0, true, decScopeD s⟩
+
+/-- `regs <node>/<node>..`: the namespace tree in pre-order (all nodes, switched on or off) -/
 def handleRegs : List String → String
   | [sc] =>
-    let scopes := (sc.splitOn "/").map decScopeD
+    let scopes := visit none ((sc.splitOn "/").map decNsNode)
     let classes := scopes.flatMap (·.classes)
     "M=" ++ encRegs (moduleRegs scopes) ++ String.join (classes.map (fun c => " C=" ++ encRegs (classRegs c))) ++
       " R=" ++ encNats (registry classes) ++
